@@ -153,6 +153,22 @@ func (e *Engine) lookupName(name string, se *SpecEnv) (Val, bool) {
 	if v, ok := se.st.ghost[name]; ok {
 		return v, true
 	}
+	if se.fr != nil && se.fr.iterOf != nil {
+		switch name {
+		case "visited":
+			if t, ok := se.st.iter[se.fr.iterOf]; ok {
+				return Val{T: nil, L: []Term{t}}, true
+			}
+		case "itermod":
+			if t, ok := se.st.iterMod[se.fr.iterOf]; ok {
+				return mkBool(t), true
+			}
+		case "niter":
+			if t, ok := se.st.iterCount[se.fr.iterOf]; ok {
+				return mkInt(t), true
+			}
+		}
+	}
 	return Val{}, false
 }
 
@@ -295,6 +311,13 @@ func (e *Engine) knownNames(se *SpecEnv) string {
 }
 
 func (e *Engine) specIndex(a, i Val, se *SpecEnv) Val {
+	if a.T == nil && len(a.L) == 1 {
+		// ghost set (e.g. the visited set of a map iteration)
+		return mkBool(Select(a.L[0], i.L[0]))
+	}
+	if mapTypeOf(a.T) != nil {
+		return e.mapValueAt(se.st, a, i)
+	}
 	switch at := a.T.Underlying().(type) {
 	case *types.Array:
 		n := len(e.lay.Leaves(at.Elem()))
@@ -475,9 +498,10 @@ func (e *Engine) evalCall(x *Expr, se *SpecEnv) Val {
 	switch x.Name {
 	case "len":
 		a := arg(0)
-		switch a.T.Underlying().(type) {
-		case *types.Map:
+		if mapTypeOf(a.T) != nil {
 			return mkInt(e.mapCard(se.st, a))
+		}
+		switch a.T.Underlying().(type) {
 		case *types.Chan:
 			return mkInt(e.chanLen(se.st, a))
 		}
@@ -630,6 +654,23 @@ func (e *Engine) evalCall(x *Expr, se *SpecEnv) Val {
 			cs = append(cs, T(SBool, "(= %s %s)", a.L[i].S, b.L[i].S))
 		}
 		return mkBool(And(cs...))
+	case "nth":
+		// nth(t, i): component i of a tuple-valued expression (e.g. a multi-result callback)
+		tv := arg(0)
+		i := int(x.Args[1].Int)
+		tt, ok := tv.T.(*types.Tuple)
+		if !ok {
+			panic(unsupported("nth of non-tuple %s", tv.T))
+		}
+		off := 0
+		for j := 0; j < i; j++ {
+			off += len(e.lay.Leaves(resolve(tt.At(j).Type(), nil)))
+		}
+		ft := resolve(tt.At(i).Type(), nil)
+		return Val{T: ft, L: tv.L[off : off+len(e.lay.Leaves(ft))]}
+	case "has":
+		// has(m, k): key k is present in map m
+		return mkBool(e.mapHas(se.st, arg(0), arg(1)))
 	case "mark":
 		// mark(x): an always-true marker used purely as an instantiation trigger
 		a := arg(0)
